@@ -355,7 +355,12 @@ class Program:
         is_util = rel.startswith("util/")
         ftab = self.util_functions if is_util else self.functions
         gtab = self.util_globals if is_util else self.globals
+        from .inline import lower_const_conditionals
         for fj in raw["functions"]:
+            try:
+                lower_const_conditionals(fj)
+            except Exception:
+                pass
             fn = Function(fj, rel, self)
             if fn.name in ftab:
                 other = ftab[fn.name]
